@@ -170,32 +170,35 @@ _RESP = {   # honest initiator A, deviant responder B
     'handshake': [('init', ['sa_extra_transform', 'invalid_ke_31', 'invalid_ke_14', 'drop_ke', 'drop_nonce', 'drop_sa',
                             'no_proposal_chosen', 'add_unknown_notify', 'add_error_notify', 'nonce_short', 'ke_group_14']),
                   ('auth', ['id_data', 'id_type', 'id_case', 'auth_garbage', 'auth_method', 'ts_wider', 'ts_other_port',
-                            'mode_flip', 'sa_extra_transform', 'sa_spi_long', 'sa_spi_short', 'drop_sa', 'drop_tsi', 'drop_tsr', 'drop_auth', 'drop_id',
+                            'mode_flip', 'sa_extra_transform', 'sa_foreign_first', 'sa_spi_long', 'sa_spi_short', 'drop_sa', 'drop_tsi', 'drop_tsr', 'drop_auth', 'drop_id',
                             'no_proposal_chosen', 'ts_unacceptable', 'authentication_failed', 'add_error_notify',
                             'add_unknown_notify', 'add_vendor', 'empty'])],
-    'new_child': [('child', ['ts_wider', 'ts_other_port', 'mode_flip', 'sa_extra_transform', 'no_additional_sas',
+    'new_child': [('child', ['ts_wider', 'ts_other_port', 'mode_flip', 'sa_extra_transform', 'sa_foreign_first', 'exch_37',
+                             'no_additional_sas',
                              'temporary_failure', 'invalid_ke_14', 'drop_nonce', 'drop_sa', 'drop_tsi', 'sa_spi_long',
                              'sa_spi_short', 'no_proposal_chosen', 'ts_unacceptable', 'add_error_notify', 'empty'])],
-    'rekey_child': [('child', ['ts_wider', 'mode_flip', 'sa_extra_transform', 'child_sa_not_found', 'temporary_failure',
+    'rekey_child': [('child', ['ts_wider', 'mode_flip', 'sa_extra_transform', 'sa_foreign_first', 'exch_37',
+                               'child_sa_not_found', 'temporary_failure',
                                'no_additional_sas', 'drop_nonce', 'sa_spi_long', 'empty']),
                     ('info', ['delete_unknown_spi', 'drop_delete', 'delete_twice', 'add_error_notify'])],
     'rekey_ike': [('child', ['no_additional_sas', 'invalid_ke_14', 'invalid_ke_19', 'invalid_ke_31', 'sa_extra_transform',
                              'drop_ke', 'drop_nonce', 'drop_sa', 'temporary_failure', 'no_proposal_chosen', 'empty'])],
     'delete_child': [('info', ['delete_unknown_spi', 'drop_delete', 'delete_twice', 'add_error_notify', 'add_vendor'])],
     'delete_ike': [('info', ['add_error_notify', 'add_vendor'])],
-    'dpd': [('info', ['add_error_notify', 'add_vendor', 'drop_delete'])],
+    'dpd': [('info', ['add_error_notify', 'add_vendor', 'drop_delete', 'exch_36'])],
 }
 _REQ = {    # honest responder B, deviant initiator A
     'handshake': [('init', ['sa_unsupported', 'drop_ke', 'drop_nonce', 'drop_sa', 'ke_group_14', 'nonce_short',
                             'add_vendor', 'add_unknown_notify', 'add_error_notify', 'empty']),
                   ('auth', ['id_data', 'id_type', 'id_case', 'auth_garbage', 'auth_method', 'ts_elsewhere', 'ts_wider',
-                            'ts_other_port', 'mode_flip', 'sa_unsupported', 'sa_extra_transform', 'sa_spi_short',
-                            'sa_spi_long', 'drop_tsi', 'drop_tsr',
+                            'ts_other_port', 'mode_flip', 'sa_unsupported', 'sa_extra_transform', 'sa_two_proposals',
+                            'sa_spi_short', 'sa_spi_long', 'drop_tsi', 'drop_tsr',
                             'drop_auth', 'drop_id', 'drop_sa', 'add_vendor', 'add_error_notify', 'empty'])],
     'new_child': [('child', ['ts_elsewhere', 'ts_wider', 'ts_other_port', 'mode_flip', 'sa_unsupported', 'drop_nonce',
-                             'drop_sa', 'drop_tsi', 'add_error_notify', 'sa_spi_short', 'sa_spi_long', 'empty'])],
+                             'drop_sa', 'drop_tsi', 'add_error_notify', 'sa_spi_short', 'sa_spi_long', 'sa_two_proposals',
+                             'empty'])],
     'rekey_child': [('child', ['rekey_unknown_spi', 'ts_other_port', 'ts_wider', 'mode_flip', 'sa_unsupported',
-                               'drop_nonce', 'empty']),
+                               'sa_two_proposals', 'drop_nonce', 'empty']),
                     ('info', ['delete_unknown_spi', 'delete_twice', 'drop_delete', 'empty'])],
     'rekey_ike': [('child', ['sa_unsupported', 'drop_ke', 'drop_nonce', 'ke_group_14', 'sa_extra_transform', 'empty'])],
     'delete_child': [('info', ['delete_unknown_spi', 'delete_twice', 'drop_delete', 'empty', 'add_error_notify'])],
